@@ -333,6 +333,72 @@ def r9_live_results(ctx, prog):
             r.ok(f['qname'], site, 'after getObject() != NULL and isValid()', file=f['file'], line=line)
 
 
+def r3b_map_comparison(ctx, prog):
+    """The helper that R3 takes as the oracle for attribute-map attributes is itself decided on its finite domain of sizes: a search array matches a stored map only if it has
+    exactly as many entries (a proper subset, or the empty array, is not *equal* to the attribute)."""
+    r = ctx.rule('C19.R3b', 'the attribute-map comparison demands the same number of entries', floor=3, engine='E1 finite-domain evaluation')
+    f0 = prog.fn('SoftHSM::C_FindObjectsInit')
+    names = {c['callee'] for c in calls(f0['body']) if c.get('callee') and '::' not in c['callee'] and any(short(x.get('callee')) == 'getAttributeMapValue' for a in c.get('args', []) for x in walk(a) if x.get('k') == 'Call')}
+    if not names:
+        r.undecided(f0['qname'], 'attribute map helper', 'no helper compares an attribute map (C19.R3 reports the missing comparison)', file=f0['file'], line=f0['line'])
+        return
+    for hn in sorted(names):
+        h = prog.fn(hn)
+        ctx.analysed(h)
+        pmap, pa, pl = param_name(h, 0), param_name(h, 1), param_name(h, 2)
+        esz = 24          # sizeof(CK_ATTRIBUTE) on LP64
+        for stored, given in ((2, 1), (2, 0), (1, 2), (2, 2)):
+            o = Outcomes(h, prog, cenv={'size(%s)' % pmap: stored, pl: given * esz, pa: 1, re.compile(r'operator==\(find\(.*\),end\(.*\)\)'): 0, re.compile(r'operator!=\(find\(.*\),end\(.*\)\)'): 1})
+            o.CAP = 64
+            o.LOOP_ROUNDS = 1
+            o.go()
+            r.paths += len(o.outcomes)
+            site = 'stored map of %d entries, search array of %d' % (stored, given)
+            can_true = [oc for oc in o.outcomes if oc.get('ret') not in ('false', '0') and oc.get('retv') not in (0,)]
+            if not o.outcomes:
+                r.undecided(h['qname'], site, 'no path', file=h['file'], line=h['line'])
+            elif stored != given and can_true:
+                r.violation(h['qname'], site, 'a search array with %d entries can be found equal to a stored attribute map of %d entries: an object is returned whose attribute does not equal the template entry' % (given, stored),
+                            file=h['file'], line=can_true[0]['line'], path=can_true[0]['path'])
+            elif stored == given and not can_true:
+                r.violation(h['qname'], site, 'equal sizes can never match: the object cannot be found by this attribute', file=h['file'], line=h['line'])
+            else:
+                r.ok(h['qname'], site, 'no match' if stored != given else 'can match', file=h['file'], line=h['line'])
+
+
+def r10_batches_drain(ctx, prog):
+    """"Each exactly once, split arbitrarily over the calls": C_FindObjects answers with fewer handles than the caller asked for only when the result set is exhausted.  With the
+    request fixed to one handle and every handle found dead, the only way out of the hand-out loop is a retrieveHandles() that returned nothing."""
+    r = ctx.rule('C19.R10', 'C_FindObjects reports fewer handles than requested only when the result set is exhausted (dead handles do not use up the batch)', floor=1, engine='E1+E3 finite-domain evaluation with recorded facts')
+    f = prog.fn('SoftHSM::C_FindObjects')
+    ctx.analysed(f)
+    from rules.c13 import all_outcomes
+    o = all_outcomes(f, prog, {'isInitialised': 1, param_name(f, 2): 1, re.compile(r'getObject(@\d+)?\(handleManager,.*\)'): 0}, {'retrieveHandles', 'eraseHandles'}, fact_rx=r'.*retrieveHandles.*')
+    r.paths += len(o.outcomes)
+    ok_paths = [oc for oc in o.outcomes if may_succeed(oc)]
+    site = 'request for 1 handle, dead handles first'
+    bad = None
+    for oc in ok_paths:
+        rts = [i for i, e in enumerate(oc['events']) if e[0] == 'call' and e[1] == 'retrieveHandles']
+        if not rts:
+            continue
+        if any(e[0] == 'write' and re.match(r'%s\[' % re.escape(param_name(f, 1)), e[1]) for e in oc['events']):
+            continue          # the one requested handle was handed out
+        # the facts recorded after the last retrieve: did it return 0?
+        tail = oc['events'][rts[-1]:]
+        exhausted = any(e[0] == 'fact' and 'retrieveHandles' in e[1] and ((re.match(r'EQ\(retrieveHandles.*,0\)$', e[1]) and e[2]) or (re.match(r'retrieveHandles', e[1]) and e[2] is False)) for e in tail)
+        if not exhausted:
+            bad = oc
+            break
+    if not ok_paths:
+        r.undecided(f['qname'], site, 'no successful path', file=f['file'], line=f['line'])
+    elif bad:
+        r.violation(f['qname'], site, 'with one handle requested and the next handles dead, C_FindObjects can return (0 handles) although the last retrieveHandles() still delivered one: the caller takes 0 for the end of the search and never sees the remaining matches',
+                    file=f['file'], line=bad['line'], path=bad['path'])
+    else:
+        r.ok(f['qname'], site, '%d successful paths, each ends on an empty result set' % len(ok_paths), file=f['file'], line=f['line'])
+
+
 def run(ctx):
     prog = ctx.prog('ossl-file')
     r1_filter(ctx, prog)
@@ -348,6 +414,8 @@ def run(ctx):
     c03.r7_table_scans(ctx, prog, rule_id='C19.R7b')
     c15.r1_chain(ctx, prog, rule_id='C19.R8')
     r9_live_results(ctx, prog)
+    r3b_map_comparison(ctx, prog)
+    r10_batches_drain(ctx, prog)
 
 
 MUTANTS = [
